@@ -461,6 +461,47 @@ pub fn sos_seq(utf8_only: bool, with_8bit: bool) -> BoxedStrategy<Vec<u8>> {
         .boxed()
 }
 
+/// OSC / DCS / SOS / PM / APC with a payload of 200..1600 bytes around the
+/// usual block and buffer sizes, optionally with a few separators, a
+/// multi-byte character or (8-bit streams) a raw byte somewhere inside.
+pub fn long_string(utf8_only: bool, with_8bit: bool) -> BoxedStrategy<Vec<u8>> {
+    (
+        select(vec![&b"\x1b]"[..], b"\x1bP", b"\x1bP1;2$q", b"\x1bX", b"\x1b^", b"\x1b_"]),
+        prop_oneof![3 => select(vec![200usize, 254, 255, 256, 257, 258, 300, 511, 512, 513, 1022, 1023, 1024, 1025, 1026, 1500]), 1 => 200usize..1600],
+        select(vec![b'a', b'~', b' ', b'0', b';']),
+        proptest::collection::vec((any::<u16>(), select(vec![0u8, 1, 2, 3, 4])), 0..4),
+        term(with_8bit),
+        "[ -~]{0,3}",
+    )
+        .prop_map(move |(intro, len, fill, extras, t, tail)| {
+            let mut payload = vec![fill; len];
+            for (frac, kind) in extras {
+                let pos = (frac as usize * len) >> 16;
+                match kind {
+                    0 => payload[pos] = b';',
+                    1 => payload[pos] = b'x',
+                    2 => {
+                        // a multi-byte character
+                        let c = "\u{e9}".as_bytes();
+                        if pos + c.len() <= payload.len() {
+                            payload[pos..pos + c.len()].copy_from_slice(c);
+                        }
+                    }
+                    // an 8-bit ST in the middle: ends DCS/SOS/PM/APC, what follows is text
+                    3 if !utf8_only && with_8bit => payload[pos] = 0x9c,
+                    3 if pos + 2 <= payload.len() => payload[pos..pos + 2].copy_from_slice("\u{9c}".as_bytes()),
+                    _ => payload[pos] = b' ',
+                }
+            }
+            let mut v = intro.to_vec();
+            v.extend(payload);
+            push_term(&mut v, t);
+            v.extend(tail.into_bytes());
+            v
+        })
+        .boxed()
+}
+
 pub fn bad_utf8() -> BoxedStrategy<Vec<u8>> {
     prop_oneof![
         vec(0x80u8..=0xbf, 1..=2),                       // lone continuation
@@ -560,6 +601,10 @@ pub fn item(cfg: StreamCfg) -> BoxedStrategy<Item> {
         opts.push((2, raw("osc", osc_seq(u, e8))));
         opts.push((2, raw("dcs", dcs_seq(u, e8))));
         opts.push((1, raw("sos-pm-apc", sos_seq(u, e8))));
+    }
+    if cfg.strings {
+        // string sequences with long payloads (block-size / buffer-size boundaries)
+        opts.push((1, raw("long-string", long_string(u, e8))));
     }
     if cfg.broken {
         opts.push((1, raw("can-sub", select(vec![vec![0x18u8], vec![0x1a]]))));
@@ -779,12 +824,13 @@ pub fn sgr_item(cfg: SgrStreamCfg) -> BoxedStrategy<Item> {
 /// were removed).
 pub fn sgr_stream(cfg: SgrStreamCfg) -> BoxedStrategy<(Vec<Item>, u64)> {
     vec(sgr_item(cfg), 0..=cfg.max_items)
-        .prop_map(|mut items| {
+        .prop_map(|items| {
             // strings that are not terminated would swallow what follows; that
             // is fine for the oracle (the reference parser sees the same) but
             // makes cases trivial, so terminate dangling strings with BEL/ST
-            let removed = drop_underline_replacements(&mut items);
-            (items, removed)
+            // (until the F18 repair, groups replacing one underline kind by another were
+            // removed here; the second component is kept for the evidence format)
+            (items, 0)
         })
         .boxed()
 }
